@@ -230,3 +230,18 @@ contract(L + 'LogicalLinkController.close', 'C17',
                   ('post.name-frame', 'self.snl.get(b"urn:nfc:sn:y") == old(self.snl[b"urn:nfc:sn:y"]) and '
                                       'self.snl.get(b"urn:nfc:sn:sdp") == 1')],
          raises={})
+# the same for a well-known service (fixed address below 16; seed C17-R9A kept such names in the table): closing the
+# last socket bound under urn:nfc:sn:snep frees address 4 AND the name, whatever else is registered
+contract(L + 'LogicalLinkController.close', 'C17',
+         dict(self=llc(snl=DictOf({b'urn:nfc:sn:sdp': 1, b'urn:nfc:sn:snep': 4, b'urn:nfc:sn:y': Int(16, 31)}),
+                       sap=LazyList([Opt(Obj(L + 'ServiceAccessPoint', _partial=False, addr=i, llc=Ref('self'),
+                                             sock_list=Fixed([Ref('socket')], 'deque'),
+                                             send_list=Fixed([], 'deque'))) for i in range(64)])),
+              socket=tco('LogicalDataLink', addr=Const(4))),
+         name='C17/close.well-known-service',
+         requires=['self.sap[4] is not None'],
+         ensures=[('post.freed', 'self.sap[4] is None'),
+                  ('post.name-freed', 'self.snl.get(b"urn:nfc:sn:snep") is None'),
+                  ('post.name-frame', 'self.snl.get(b"urn:nfc:sn:y") == old(self.snl[b"urn:nfc:sn:y"]) and '
+                                      'self.snl.get(b"urn:nfc:sn:sdp") == 1')],
+         raises={})
